@@ -577,7 +577,7 @@ def plan(tier, seed):
             parts = max(1, -(-n // EXH_CHUNK))
             for p in range(parts):
                 descs.append({"kind": "exh", "g": gi, "set": which, "part": p, "of": parts, "tier": tier})
-    nb = 160 if tier == "quick" else 4000
+    nb = 120 if tier == "quick" else 1600
     for b in range(nb):
         descs.append({"kind": "rand", "seed": seed, "batch": b, "n": RAND_BATCH})
     # heavy first is not needed; interleave so that progress is even
